@@ -284,22 +284,41 @@ def run_e2e(case, stats, viol):
             if rng.random() < 0.4:
                 frag = '!' + frag
             return frag
+        def pick_pkg():
+            # a pattern that ends exactly at a package boundary of a module
+            # name ('!pkg\\.tests$'): it says nothing about the modules
+            # below that package
+            parts = rng.choice(mods).split('.')
+            pre = '.'.join(parts[:rng.randint(1, max(1, len(parts) - 1))])
+            frag = re.escape(pre[-rng.randint(2, len(pre)):]) + '$'
+            return ('!' if rng.random() < 0.7 else '') + frag
         opts = {}
         if rng.random() < 0.8:
             opts['test'] = [pick(all_ids) for _ in range(rng.randint(1, 3))]
         if rng.random() < 0.5:
             opts['module'] = [pick(mods) for _ in range(rng.randint(1, 2))]
+        if rng.random() < 0.25:
+            opts['module'] = (opts.get('module') or []) + [pick_pkg()]
+            stats['package_boundary_patterns'] = \
+                stats.get('package_boundary_patterns', 0) + 1
         if rng.random() < 0.5:
             opts['layer'] = [pick(lnames) for _ in range(rng.randint(1, 2))]
         # the legacy positional filters: [module_filter [test_filter]]
         positional = []
+        def pick_nonempty(pool):
+            # (an empty positional argument is "not given" for argparse's
+            # optional positionals; the empty pattern is exercised with -t)
+            while True:
+                x = pick(pool)
+                if x not in ('', '!'):
+                    return x
         if rng.random() < 0.3:
-            mf = rng.choice(['.', pick(mods), pick(mods)])
+            mf = rng.choice(['.', pick_nonempty(mods), pick_nonempty(mods)])
             positional = [mf]
             if mf != '.':
                 opts['module'] = (opts.get('module') or []) + [mf]
             if rng.random() < 0.6:
-                tf = pick(all_ids)
+                tf = pick_nonempty(all_ids)
                 positional.append(tf)
                 opts['test'] = (opts.get('test') or []) + [tf]
             stats['positional_filter_runs'] = \
